@@ -174,3 +174,36 @@ pub fn check_sym(case: &str) -> Result<(), String> {
         }
     }
 }
+
+/// C08 (resolving an answer): replace_variables on bindings that need no occurs check returns the fully
+/// resolved term.  Bindings whose resolution does not end (cyclic through a structure) are skipped.
+pub fn enum_resolve(seed: u64) -> Vec<String> {
+    let mut out = vec![];
+    for c in enum_mgu(seed) {
+        let c2 = format!("ss={};a={}", field(&c, "ss"), field(&c, "a"));
+        if !out.contains(&c2) { out.push(c2); }
+    }
+    // chains and nested bindings
+    let mk = |pairs: &[(usize, Unifiable)]| { let mut ss: SS = vec![]; for (i, t) in pairs { while ss.len() <= *i { ss.push(None); } ss[*i] = Some(Rc::new(t.clone())); } ss };
+    let deep = mk(&[(1, var(2, "$Y")), (2, var(3, "$Z")), (3, SComplex(vec![atom("f"), var(4, "$W"), mk_list(&[var(5, "$V")], Some(var(6, "$T")))])),
+                    (4, SFloat(0.5)), (5, empty()), (6, mk_list(&[atom("b")], None))]);
+    for t in [var(1, "$X"), SComplex(vec![atom("g"), var(1, "$X"), var(2, "$Y")]), mk_list(&[var(3, "$Z"), var(7, "$U")], Some(var(6, "$T")))] {
+        out.push(format!("ss={};a={}", ser_ss(&deep), ser(&t)));
+    }
+    out
+}
+fn has_deep(t: &T) -> bool {
+    match t { T::A(s) => s == "<deep>", T::C(ts) => ts.iter().any(has_deep), T::Cons(a, b) => has_deep(a) || has_deep(b), _ => false }
+}
+pub fn check_resolve(case: &str) -> Result<(), String> {
+    let ss = de_ss(field(case, "ss"));
+    let a = de(field(case, "a"));
+    let env = env_of(&ss);
+    let expected = resolve(&norm(&a), &env, 0);
+    if has_deep(&expected) { crate::skip(); return Ok(()); }
+    for i in 0..ss.len() { if has_deep(&resolve(&T::V(i), &env, 0)) { crate::skip(); return Ok(()); } }
+    let got = a.replace_variables(&ss);
+    let g = norm(&got);
+    if g != expected { return Err(format!("replace_variables gave {:?} but the resolved term is {:?}", g, expected)); }
+    Ok(())
+}
